@@ -10,7 +10,7 @@ TAGS = ["td_lane", "ra_lane", "td_lr1"]
 def run(tier, seed):
     chk = core.Check("C13", "exploration", tier, seed)
     rng = chk.rng("gen")
-    n_gram = {"quick": 40, "thorough": 400}[tier]
+    n_gram = {"quick": 56, "thorough": 400}[tier]
     subj, cases = pipeline.make_cases(chk, rng, n_gram, gen2.gen_macros, TAGS,
                                       want=lambda g, cfg: getattr(g, "macro_uses", 0) >= 1, max_attempts=n_gram * 40)
     irng = chk.rng("inputs")
